@@ -29,8 +29,11 @@ def reduce_ratio(q):
   return [q[0] // g, q[1] // g]
 
 
-def F(lo, hi, name=None, loc=None):
-  return {'t': 'f', 'lo': reduce_ratio(lo), 'hi': reduce_ratio(hi), 'name': name, 'loc': loc or []}
+def F(lo, hi, name=None, loc=None, scale=None):
+  p = {'t': 'f', 'lo': reduce_ratio(lo), 'hi': reduce_ratio(hi), 'name': name, 'loc': loc or []}
+  if scale is not None:
+    p['scale'] = scale      # a hint for search algorithms; the member set does not depend on it
+  return p
 
 
 def U(name=None, loc=None):
@@ -277,10 +280,14 @@ def ref_random(spec, rng):
   return d, script
 
 
-def ref_member(spec, rng):
-  """A random member (custom points get a string)."""
+def ref_member(spec, rng, floats='random'):
+  """A random member (custom points get a string). `floats='edge'`: every float decision is 0 when 0 lies
+  in its range, else its lower bound (falsy values, boundaries)."""
   def pt(p):
     if p['t'] == 'f':
+      if floats == 'edge':
+        zero_in = p['lo'][0] <= 0 <= p['hi'][0]
+        return [{'f': [0, 1] if zero_in else list(p['lo'])}, []]
       return [{'f': dyadic(rng, p['lo'], p['hi'])}, []]
     if p['t'] == 'u':
       return [rng.choice(['abc', '', 'x']), []]
@@ -411,7 +418,8 @@ def gen_point(rng, depth_left, allow_inf, budget):
   if allow_inf and r < 12:
     lo = rng.randint(-4, 4)
     hi = lo + rng.randint(0, 6)
-    return F([lo, 2], [hi, 2])
+    scale = rng.choice([None, None, 'linear', 'log', 'rlog'] if lo > 0 else [None, None, 'linear'])
+    return F([lo, 2], [hi, 2], scale=scale)
   if allow_inf and r < 16:
     return U()
   n = rng.weighted([(2, 1), (5, 2), (5, 3), (3, 4), (1, 5)])
